@@ -7,7 +7,9 @@
 (*   tmp : Int(transient=True)    ro : ReadOnly (0 = not yet written)       *)
 (* plus a declared @observe("xs.items") counter, a dynamic xs_items handler *)
 (* counter (registered by the driver on whichever object is current) and a *)
-(* cached Property total = sum(xs) observing xs.items.                     *)
+(* cached Property total = sum(xs) observing xs.items, a second one        *)
+(* (total2) declared with the legacy depends_on, read by the static        *)
+(* handler of n - also while a copy is being filled in.                    *)
 (* Liveness of a copy is not a separate assertion: after Copy the history  *)
 (* simply CONTINUES on the copy with the same operations.                  *)
 (***************************************************************************)
@@ -50,6 +52,10 @@ Step(st, op, v) ==
                           ELSE Same([st EXCEPT !.dl[1][2] = Append(@, v)], "")
     [] op = "s_add" -> IF v = Bad THEN Same(st, "TraitError") ELSE Same([st EXCEPT !.s = InsSorted(@, v)], "")
     [] op = "child_value" -> IF v = Bad THEN Same(st, "TraitError") ELSE Same([st EXCEPT !.child.value = v], "")
+    \* child.grid : List(Any) holding plain lists, also reachable through the deferred attribute cgrid = DelegatesTo("child", "grid")
+    [] op = "grid_append" -> Same([st EXCEPT !.child.grid = Append(@, <<v>>)], "")           \* o.cgrid.append([v])
+    [] op = "grid_inner" -> IF st.child.grid = <<>> THEN Same(st, "IndexError")
+                            ELSE Same([st EXCEPT !.child.grid[1] = Append(@, v)], "")      \* o.child.grid[0].append(v): unvalidated (Any)
     [] op = "child_items" -> IF v = Bad THEN Same(st, "TraitError") ELSE Same([st EXCEPT !.child.items = Append(@, v)], "")
 \* a copy: everything but the transient attribute (back at its default 0)
 Copied(st) == [st EXCEPT !.tmp = 0]
